@@ -150,6 +150,28 @@ func c03(r *ev.Run, replay string) {
 	if !r.Expired() {
 		r.Completed(fmt.Sprintf("every scalar and fixed-width byte field of %d base messages varied alone over its value alphabet (Appendix B)", len(bases)))
 	}
+	// (3) thorough: adjacent field pairs ("two deviations from base")
+	if r.Thorough() {
+		var npair int64
+		for _, base := range bases {
+			if r.Expired() {
+				r.Incomplete("adjacent-field-pair variations")
+				break
+			}
+			corpus.PairVariations(base, func(t *wire.N) []wire.Mark { _, m := wire.Encode(t); return m }, func(t *wire.N, what string) {
+				npair++
+				rep := shapeCase{Model: t.String(), Tree: t}
+				c03Compare(r, t, bind.Hist{}, " [varied "+what+"]", func(sig, w string) {
+					r.Violation(sig, w+" for "+shortModel(t), rep)
+				})
+			})
+		}
+		nvar += npair
+		r.Set("adjacent_pair_variations", npair)
+		if !r.Expired() {
+			r.Completed(fmt.Sprintf("every pair of fields adjacent on the wire of the %d base messages set to {0, all-ones, pattern} x {0, all-ones, pattern}", len(bases)))
+		}
+	}
 	r.Set("states", shapes+nvar)
 	r.Set("single_field_variations", nvar)
 	r.Set("traces_validated_against_impl", r.Counter("histories")+nvar)
